@@ -445,6 +445,9 @@ def gen_model_compare(ctx, case, ecc, idx):
     if fields is None:
         ctx.count('ambiguous_layout_dropped')
         return []
+    if case.get('nomodel'):
+        ctx.count('generation_model_comparison_skipped (fields not readable back unambiguously)')
+        return []
     sa = 0 if case['tool'] == 'he' else 1
     o = ctx.model.run(['idx_eccfile %s %s' % (hx(pre), hxl(fields)), 'idx_msgs %d %s %s' % (sa, hx(pre), hxl(fields))])
     probs = []
@@ -615,6 +618,11 @@ def run(ctx):
             {'tool': 'he', 'tree': t1, 'markers': [[2, 'aa']], 'idx_ops': [['append', '31000000']], 'algo': 1},
             {'tool': 'he', 'tree': t1, 'markers': [[2, 'aa']], 'idx_ops': [['rand', 2, '5a' * 27], ['flip', 4, [[p, 7] for p in range(0, 27, 3)]]], 'algo': 2},
             {'tool': 'he', 'tree': [], 'markers': [], 'idx_ops': []},
+            # names holding bytes of the field delimiter (latin-1 \xfa\xff...): the index is computed from the field LENGTHS at generation
+            # and must still point at the five real markers of every entry (predicate only: the harness feeds the model with fields read
+            # back by its own parser, which such names mislead - the open format finding of C03/C09)
+            {'tool': 'he', 'tree': [['ab\xfa\xff', 'hex:4142'], ['x\xfa\xff\xfa\xff\xfacd', 'hex:43'], ['plain', 'hex:44']], 'markers': [], 'idx_ops': [], 'only_gen': True, 'nomodel': True},
+            {'tool': 'sa', 'tree': [['ab\xfa\xff', 'hex:4142'], ['sub\xfa\xff/f.txt', 'hex:43'], ['plain', 'hex:44']], 'markers': [], 'idx_ops': [], 'only_gen': True, 'nomodel': True},
             # index records overwritten by LATER records of the same index (valid records, out of order), every marker destroyed
             {'tool': 'he', 'tree': [['f%02d' % i, 'hex:4142'] for i in range(12)], 'markers': [[j, 'aa'] for j in range(60)], 'idx_ops': [['copyrec', 5, 31, 9]]},
             {'tool': 'sa', 'tree': [['f%02d' % i, 'hex:4142'] for i in range(12)], 'markers': [[j, '00'] for j in range(60)], 'idx_ops': [['copyrec', 0, 40, 3], ['copyrec', 50, 10, 4]]},
